@@ -38,15 +38,11 @@ pub fn no_specialized_crc(_init: u32, _amount: u64) -> Option<crc32fast::Hasher>
 /// Harness files are fabricated with from_raw_fd and never opened; close(2) is FFI.
 pub fn fd_drop_noop(_fd: &mut std::os::fd::OwnedFd) {}
 
-/// Model of SSE2 PSRLQ (`_mm_srl_epi64`): both 64-bit lanes shifted right logically by the low 64 bits
-/// of `count`; a count above 63 yields 0. (llvm.x86.sse2.psrl.q is not supported by Kani 0.68.)
 #[cfg(target_arch = "x86_64")]
-pub fn model_mm_srl_epi64(a: std::arch::x86_64::__m128i, count: std::arch::x86_64::__m128i) -> std::arch::x86_64::__m128i {
-	let a: [u64; 2] = unsafe { std::mem::transmute(a) };
-	let c: [u64; 2] = unsafe { std::mem::transmute(count) };
-	let r = if c[0] > 63 { [0u64, 0u64] } else { [a[0] >> c[0], a[1] >> c[0]] };
-	unsafe { std::mem::transmute(r) }
-}
+#[path = "psrlq.rs"]
+mod psrlq;
+#[cfg(target_arch = "x86_64")]
+pub use psrlq::model_mm_srl_epi64;
 
 pub fn raw_file(fd: i32) -> std::fs::File {
 	use std::os::fd::FromRawFd;
